@@ -24,6 +24,8 @@ import re
 import sys
 import time
 sys.path.insert(0, os.path.dirname(os.path.abspath(__file__)))
+# bound on the number of children / elements per node; the thorough tier of the driver raises it
+DEPTH = int(os.environ.get("MIRSYM_DEPTH", "3"))
 from mirsym import Engine, parse_mir, STD_MODELS, Unsupported, PanicFound, Ref, Opaque
 
 
@@ -121,7 +123,7 @@ def main():
         for name in ("x", "long_name", "@result", "@x"):
             run({"node": "ident", "name": name}, ("enum", "Expr::Ident", [S(name)]),
                 [] if name.startswith("@") else [("report", "variable", name)])
-        for n in range(0, 4):
+        for n in range(0, DEPTH + 1):
             for has_target in (False, True):
                 tgt = ("Some", boxed("t")) if has_target else ("None",)
                 run({"node": "call", "args": n, "receiver": has_target},
